@@ -1165,3 +1165,21 @@ def c_str_shadow(repo):
         return isinstance(n, ast.Name) and n.id == 'self' and isinstance(getattr(n, 'ctx', None), ast.Load)
     replace_expr(fn, pred, lambda n: ast.Attribute(ast.Name('self', ast.Load()), 'all', ast.Load()))
     return {'data': src(t)}
+
+
+@control(['C13'], 'line-lookup-counts-breaks-at-offset', ['R13.f'], 'locate the line with bisect_right (breaks at or before the offset)')
+def c_bisect(repo):
+    t = parse(repo, 'utils')
+    fn = find_func(t, '__call__', cls='CharToLineOffset')
+    c = _first(fn, lambda n: isinstance(n, ast.Call) and ast.unparse(n.func).startswith('bisect'))
+    c.func = ast.Attribute(ast.Name('bisect', ast.Load()), 'bisect_right', ast.Load())
+    return {'utils': src(t)}
+
+
+@control(['C13'], 'scan-result-starts-at-cursor-index', ['R13.e'], 'start the result of a conditional scan at the buffer cursor index')
+def c_scan_pos(repo):
+    t = parse(repo, 'utils')
+    fn = _buffer_method(t, 'forward_until')
+    c = _first(fn, lambda n: isinstance(n, ast.Call) and isinstance(n.func, ast.Attribute) and 'init' in n.func.attr)
+    c.args[1] = ast.Attribute(ast.Name('self', ast.Load()), 'position', ast.Load())
+    return {'utils': src(t)}
